@@ -164,7 +164,9 @@ fn c15_check(_ctx: &Ctx, c: &TimedCase) -> Report {
         return rep;
       }
       Some(f) => {
-        if f > end_vt + bound {
+        // (+ 0.1 ms: under schedules with a thread start latency every thread runs a
+        // microsecond late)
+        if f > end_vt + bound + 100_000 {
           rep.fail = fail(format!(
             "library thread {} finished at {} ms, more than the timer periods ({} ms) after the last subscription ended at {} ms",
             t.name,
@@ -201,7 +203,7 @@ pub struct C16Case {
 fn c16_strategy(_ctx: &Ctx) -> BoxedStrategy<C16Case> {
   let kinds = prop::sample::select(vec![
     "interval", "interval_unsub", "timer", "delay", "timeout", "timeout_slow", "sample", "debounce", "time_interval",
-    "interval_default", "timer_default",
+    "interval_default", "timer_default", "timer_zero",
   ]);
   (
     kinds,
@@ -250,6 +252,11 @@ fn c16_build(c: &C16Case) -> Case {
     // on the default scheduler subscribe() itself runs the timer and returns when it is over
     "interval_default" => Node::Un(Op::Take(c.n), Box::new(Node::Src(0, Src::IntervalDefault(c.d)))),
     "timer_default" => Node::Src(0, Src::TimerDefault(c.d)),
+    // a period shorter than anything else that takes time (thread start-up)
+    "timer_zero" => {
+      actions.push(Action::Advance(5));
+      Node::Src(0, Src::Timer(0))
+    }
     "delay" => {
       emit_script(&mut actions);
       if c.ending == 0 {
@@ -385,6 +392,12 @@ fn c16_judge(c: &C16Case, got: Vec<(Rk, u64)>, rep: &mut Report, fail: &dyn Fn(S
       let exp: Vec<(Rk, u64)> = (0..c.n).map(|k| (Rk::N(P::I(k as i64)), (k as u64 + 1) * d)).collect();
       if got != exp {
         rep.fail = fail(format!("interval({}) unsubscribed at {}: got <{}>, expected <{}>", d, d * c.n as u64 + 3, show(&got), show(&exp)));
+      }
+    }
+    "timer_zero" => {
+      let exp = vec![(Rk::N(P::U), 0), (Rk::C, 0)];
+      if got != exp {
+        rep.fail = fail(format!("timer(0): got <{}>, expected <{}>", show(&got), show(&exp)));
       }
     }
     "timer" | "timer_default" => {
